@@ -16,7 +16,8 @@ tree the copy is byte-identical to /repo apart from one dependency line in Cargo
 import os, re, shutil, sys
 
 SRC = '/repo'
-DST = '/verif/target/repo_va'
+VERIF = os.path.dirname(os.path.dirname(os.path.abspath(__file__)))
+DST = os.path.join(VERIF, 'target', 'repo_va')
 
 
 def split_top(s):
@@ -93,7 +94,7 @@ def main():
     changed, rewritten, want = 0, 0, set()
     cargo = open(os.path.join(SRC, 'Cargo.toml')).read()
     if 'vatomic' not in cargo:
-        cargo = cargo.replace('[dependencies]\n', '[dependencies]\nvatomic = { path = "/verif/mc/vatomic" }\n', 1)
+        cargo = cargo.replace('[dependencies]\n', '[dependencies]\nvatomic = { path = "../../mc/vatomic" }\n', 1)
     # target sections point at files that are not mirrored (benches/, tests/): drop them
     cargo = re.sub(r'(?ms)^\[\[(?:bench|test|example)\]\].*?(?=^\[|\Z)', '', cargo)
     changed += put(os.path.join(DST, 'Cargo.toml'), cargo.encode())
